@@ -1265,10 +1265,318 @@ Proof.
     { rewrite code_size_app. cbn [code_size isize]. replace (code_size pre + (code_size ce + (1 + 0))) with (code_size pre + code_size ce + 1) by lia. exact B2. }
     split. { rewrite <- (app_nil_r CL). eapply LRBN_after; eauto. }
     split; [exact HlenCL|]. split; [reflexivity|]. split; [exact HFLO|]. split; [apply EXT2_flags, flags_up_refl|auto].
-  - admit.
-  - admit.
-  - admit.
-  - admit.
-Admitted.
+  - (* SBlock *)
+    cbn [exec_stmt] in He. destruct (exec_list fu b (enb ++ List.concat envs)%list false st) as [[st1 en1] c1] eqn:El.
+    inversion He; subst st' en' c1. clear He.
+    rewrite nstmt_block in Hc. destruct (nlist cf b (S d) L U E fs) as [[[[[cb L1] U1] E1] fs1]|] eqn:Cl; [|discriminate].
+    cbv zeta in Hc. inversion Hc; subst code L' U' E' fs'. clear Hc.
+    destruct (IHL b infun false enb envs st st1 en1 ctl El Hg Hf L (S d) U E fs cb L1 U1 E1 fs1 Cl eq_refl (depth_le_S _ _ Hdl)
+                ltac:(discriminate) Hsok Hfuns Ufin Efin uvec K CL HL base HU HF HC HlenCL
+                m fn frs G O pre (scope_end_ops L1 d ++ post)%list lo)
+      as (n1 & m1 & K1 & HL1 & G1 & O1 & S1 & ST1 & KX1 & HX1 & F1 & Hcn1 & Hres); auto.
+    { rewrite Hcode. now rewrite <- app_assoc. }
+    destruct ctl as [| | |w| | |]; try contradiction.
+    + destruct Hres as (CL1 & enb1 & -> & M1 & LR1 & Len1 & Hfirst1 & HFLO1 & (N & Ne & L0 & -> & HFl & -> & HNlen & HN) & _).
+      assert (HN' : Forall (fun l => l_depth l = Some (S d)) N) by (revert HN; apply Forall_impl; intros l [A _]; exact A).
+      assert (HNn : Forall (fun l => l_name l <> None) N) by (revert HN; apply Forall_impl; intros l [_ A]; exact A).
+      pose proof (flags_up_depth_le _ _ _ HFl Hdl) as Hd0'.
+      pose proof (flags_up_length _ _ HFl) as HlenL0.
+      rewrite (scope_end_len N L0 d Hd0' HN'), skipn_app_len.
+      destruct (scope_end_run N K1 CL1 HL1 base L0 Ne enb d m1 fn uvec frs (pre ++ cb)%list post G1 O1 LR1 HNlen Len1 HN Hd0')
+        as (m2 & S2 & M2 & C2 & D2).
+      { rewrite Hcode. now rewrite <- !app_assoc. }
+      { rewrite code_size_app. exact M1. }
+      exists (n1 + List.length N), m2, K1, HL1, G1, O1.
+      split; [eapply steps_trans; eauto|]. split; [rewrite C2, D2; exact ST1|]. split; [rewrite D2; exact KX1|].
+      split; [exact HX1|].
+      split; [intros j Hj Hn; rewrite C2; apply F1; auto|]. split; [lia|].
+      exists (firstn (base + List.length L0) CL1), enb. split; [reflexivity|]. split.
+      { rewrite !code_size_app in *. rewrite Nat.add_assoc. exact M2. }
+      split.
+      { apply LRBN_drop in LR1; auto. apply LRBN_CL with (CL := CL1); [exact LR1|].
+        intros i Hi. now apply nth_firstn_lt. }
+      split. { rewrite firstn_length, Len1, app_length. lia. }
+      split. { rewrite HlenL0. rewrite firstn_firstn_le by lia. rewrite <- HlenL0 at 2. rewrite HlenL0. exact Hfirst1. }
+      split; [now apply FLO_firstn|]. split; [now apply EXT2_flags|auto].
+    + exists n1, m1, K1, HL1, G1, O1. split; [exact S1|]. split; [exact ST1|]. split; [exact KX1|]. split; [exact HX1|]. split; [exact F1|].
+      split; [lia|exact Hres].
+  - (* SFun *)
+    cbn [exec_stmt] in He. rewrite Ht in He.
+    rewrite nstmt_fun in Hc. destruct (d =? 0) eqn:Ed.
+    + (* a global function *)
+      apply Nat.eqb_eq in Ed. destruct (Hd0 Ed) as [-> ->].
+      destruct (nfunc cf ps b L U E fs) as [[[[[ci L1] U1] E1] fs1]|] eqn:Ef; [|discriminate]. inversion Hc; subst code L' U' E' fs'. clear Hc.
+      inversion He; subst st' en' ctl. clear He Hg.
+      assert (HLRp : LRBN K (CL ++ [cn m]) HL base L []) by (apply LRBN_CL with (CL := CL); [exact HLRB|intros i Hi; apply app_nth1; lia]).
+      destruct (closure_here K CL HL base L [] U E fs ps b ci L1 U1 E1 fs1 Ufin Efin [] uvec m fn frs G O pre ([IDefineGlobal f] ++ post)%list lo
+                  Ef Hf Hsok Hfuns HU HF (cx_envs _ _ _ _ _ _ _ _ _ _ HC) (cx_ur _ _ _ _ _ _ _ _ _ _ HC) (cx_cells _ _ _ _ _ _ _ _ _ _ HC) HLRp
+                  ltac:(rewrite app_length; lia) HM Hcode ltac:(apply FLO_snoc; [exact HFLO|lia]))
+        as (m1 & HL1 & fnc & Uv & A1 & B1 & C1 & D1 & HX1 & Hmem & Rv & LR1 & HFl).
+      pose proof (m2_s _ _ _ _ _ _ _ _ _ _ HM) as SK.
+      assert (Hnot : ~ In (cn m) HL1).
+      { intro Hin. destruct (Hmem _ Hin) as [H1|(s0 & Hs0 & Es0)].
+        - pose proof (s2_hl_lt _ _ _ SK _ H1). unfold cn in *. lia.
+        - rewrite app_nth1 in Es0 by lia. assert (Hin0 : In (cn m) CL) by (rewrite Es0; apply nth_In; lia).
+          pose proof (s2_cl_lt _ _ _ SK _ Hin0). unfold cn in *. lia. }
+      assert (Hfe2 : fetch (code_of funs fn) (code_size pre + code_size [ci]) = Some (IDefineGlobal f)).
+      { eapply fetch_mid with (c2 := []) (post := post). exact Hcode. }
+      destruct (step2_defglobal cf funs _ _ _ _ _ _ _ _ _ _ _ _ B1 Hfe2 Hnot) as (m2 & A2 & B2 & C2 & D2).
+      assert (HnK : ~ In (cn m) K) by (intro Hin; pose proof (sto_K_lt _ _ _ _ _ _ _ HS Hin); lia).
+      assert (ST1 : sto st K HL1 (cv m1) (cn m1) G O).
+      { apply STON_ext with (f := upd (cv m) (cn m) (MClo fnc Uv)); [exact C1|]. rewrite D1.
+        apply STON_temp with (cnx := cn m); [apply STON_HL with (HL := HL); [exact HS|eapply HEXT_ext; eauto]|exact HnK|lia]. }
+      exists 2, m2, K, HL1, (set_assoc G f (cv m1 (cn m))), O.
+      split. { exists m1. split; [exact A1|now apply steps_one]. }
+      split. { rewrite C2, D2. apply STON_global; auto. rewrite C1, upd_same. exact Rv. }
+      split. { exists []. rewrite app_nil_r. split; [reflexivity|intros k []]. }
+      split; [exact HX1|].
+      split. { intros j Hj Hn. rewrite C2, C1. apply upd_other. lia. }
+      split; [lia|].
+      exists CL, []. split; [reflexivity|]. split.
+      { replace (code_size pre + code_size [ci; IDefineGlobal f]) with (code_size pre + code_size [ci] + 3); [exact B2|]. cbn [code_size isize]. lia. }
+      pose proof (flags_up_length _ _ HFl) as HlenL1.
+      split. { apply LRBN_CL with (CL := (CL ++ [cn m])%list); [exact LR1|]. intros i Hi. symmetry. apply app_nth1. lia. }
+      split; [lia|]. split; [reflexivity|]. split; [exact HFLO|]. split; [now apply EXT2_flags|auto].
+    + (* a local function: may call and capture itself *)
+      destruct (dup_in_scope L f d); [discriminate|]. destruct (List.length L =? c_locals_max cf); [discriminate|].
+      destruct (nfunc cf ps b (mkLocal (Some f) (Some d) false :: L) U E fs) as [[[[[ci L1] U1] E1] fs1]|] eqn:Ef; [|discriminate].
+      inversion Hc; subst code L' U' E' fs'. clear Hc.
+      unfold new_cell in He. cbn [fst snd] in He. inversion He; subst st' en' ctl. clear He Hg.
+      pose proof (m2_s _ _ _ _ _ _ _ _ _ _ HM) as SK.
+      pose proof (stn_len _ _ _ _ _ _ _ _ _ HS) as HlenK.
+      set (c := List.length (s_cells st)) in *.
+      assert (HnK : ~ In (cn m) K) by (intro Hin; pose proof (sto_K_lt _ _ _ _ _ _ _ HS Hin); lia).
+      assert (HnHL : ~ In (cn m) HL) by (intro Hin; pose proof (s2_hl_lt _ _ _ SK _ Hin); unfold cn in *; lia).
+      assert (HK1 : exists e, (K ++ [cn m])%list = (K ++ e)%list) by eauto.
+      assert (HLR1 : LRBN (K ++ [cn m]) (CL ++ [cn m]) HL base (mkLocal (Some f) (Some d) false :: L) ((f, c) :: enb)).
+      { constructor.
+        - apply LRBN_K with (K := K); [|exact HK1]. apply LRBN_CL with (CL := CL); [exact HLRB|intros i Hi; apply app_nth1; lia].
+        - rewrite app_length. cbn. lia.
+        - unfold kc. rewrite <- HlenCL, nth_middle. rewrite <- HlenK, nth_middle. reflexivity.
+        - unfold kc. rewrite <- HlenK, nth_middle. intro Hin. contradiction. }
+      destruct (closure_here (K ++ [cn m])%list CL HL base _ ((f, c) :: enb) U E fs ps b ci L1 U1 E1 fs1 Ufin Efin envs uvec m fn frs G O pre post lo
+                  Ef Hf Hsok Hfuns HU HF (cx_envs _ _ _ _ _ _ _ _ _ _ HC))
+        as (m1 & HL1 & fnc & Uv & A1 & B1 & C1 & D1 & HX1 & Hmem & Rv & LR1 & HFl); auto.
+      { eapply UR_mono; [apply (cx_ur _ _ _ _ _ _ _ _ _ _ HC)|exact HK1|exists []; now rewrite app_nil_r]. }
+      { intros x0 c0 Hin. rewrite app_length. pose proof (cx_cells _ _ _ _ _ _ _ _ _ _ HC _ _ Hin). lia. }
+      { rewrite app_length. cbn [List.length]. lia. }
+      { apply FLO_snoc; [exact HFLO|lia]. }
+      inversion HFl as [|l0 l0' ? L0 (En0 & Ed0' & _) HFl']; subst. cbn in En0, Ed0'.
+      exists 1, m1, (K ++ [cn m])%list, HL1, G, O.
+      split; [now apply steps_one|].
+      split.
+      { assert (Est : ScopeLang.set_cell (fst (mkSst (s_cells st ++ [SVNil]) (s_globals st) (s_vecs st) (s_out st), c)) c
+                        (SVClo ps b ((f, c) :: enb ++ List.concat envs)) = fst (new_cell st (SVClo ps b ((f, c) :: enb ++ List.concat envs)))).
+        { unfold new_cell, ScopeLang.set_cell. cbn [fst s_cells s_globals s_vecs s_out]. unfold c. now rewrite set_nth_snoc. }
+        cbn [fst] in Est. rewrite Est.
+        apply STON_ext with (f := upd (cv m) (cn m) (MClo fnc Uv)); [exact C1|].
+        rewrite D1. apply STON_new; [|exact HnK|lia|rewrite upd_same; exact Rv].
+        apply STON_temp with (cnx := cn m); [apply STON_HL with (HL := HL); [exact HS|eapply HEXT_ext; eauto]|exact HnK|lia]. }
+      split. { exists [cn m]. split; [reflexivity|]. intros k [<-|[]]. lia. }
+      split; [exact HX1|].
+      split. { intros j Hj Hn. rewrite C1. apply upd_other. lia. }
+      split; [lia|].
+      exists (CL ++ [cn m])%list, ((f, c) :: enb). split; [reflexivity|]. split; [exact B1|]. split; [exact LR1|].
+      pose proof (flags_up_length _ _ HFl') as HlenL0.
+      split; [rewrite app_length; cbn [List.length]; lia|]. split; [apply firstn_app_le; lia|].
+      split; [apply FLO_snoc; [exact HFLO|lia]|].
+      split. { exists [l0'], [(f, c)], L0. repeat split; auto. constructor; [split; [congruence|congruence]|constructor]. }
+      intro Hd00. subst d. discriminate.
+  - (* SLam *)
+    apply andb_prop in Hf as [Hfb Hfm].
+    cbn [exec_stmt] in He. unfold declare in He. rewrite Ht in He, Hfm.
+    rewrite nstmt_lam in Hc. destruct (d =? 0) eqn:Ed.
+    + (* a global function value *)
+      apply Nat.eqb_eq in Ed. destruct (Hd0 Ed) as [-> ->].
+      destruct (nfunc cf ps b L U E fs) as [[[[[ci L1] U1] E1] fs1]|] eqn:Ef; [|discriminate]. inversion Hc; subst code L' U' E' fs'. clear Hc.
+      inversion He; subst st' en' ctl. clear He Hg.
+      assert (HLRp : LRBN K (CL ++ [cn m]) HL base L []) by (apply LRBN_CL with (CL := CL); [exact HLRB|intros i Hi; apply app_nth1; lia]).
+      destruct (closure_here K CL HL base L [] U E fs ps b ci L1 U1 E1 fs1 Ufin Efin [] uvec m fn frs G O pre ([IDefineGlobal x] ++ post)%list lo
+                  Ef Hfb Hsok Hfuns HU HF (cx_envs _ _ _ _ _ _ _ _ _ _ HC) (cx_ur _ _ _ _ _ _ _ _ _ _ HC) (cx_cells _ _ _ _ _ _ _ _ _ _ HC) HLRp
+                  ltac:(rewrite app_length; lia) HM Hcode ltac:(apply FLO_snoc; [exact HFLO|lia]))
+        as (m1 & HL1 & fnc & Uv & A1 & B1 & C1 & D1 & HX1 & Hmem & Rv & LR1 & HFl).
+      pose proof (m2_s _ _ _ _ _ _ _ _ _ _ HM) as SK.
+      assert (Hnot : ~ In (cn m) HL1).
+      { intro Hin. destruct (Hmem _ Hin) as [H1|(s0 & Hs0 & Es0)].
+        - pose proof (s2_hl_lt _ _ _ SK _ H1). unfold cn in *. lia.
+        - rewrite app_nth1 in Es0 by lia. assert (Hin0 : In (cn m) CL) by (rewrite Es0; apply nth_In; lia).
+          pose proof (s2_cl_lt _ _ _ SK _ Hin0). unfold cn in *. lia. }
+      assert (Hfe2 : fetch (code_of funs fn) (code_size pre + code_size [ci]) = Some (IDefineGlobal x)).
+      { eapply fetch_mid with (c2 := []) (post := post). exact Hcode. }
+      destruct (step2_defglobal cf funs _ _ _ _ _ _ _ _ _ _ _ _ B1 Hfe2 Hnot) as (m2 & A2 & B2 & C2 & D2).
+      assert (HnK : ~ In (cn m) K) by (intro Hin; pose proof (sto_K_lt _ _ _ _ _ _ _ HS Hin); lia).
+      exists 2, m2, K, HL1, (set_assoc G x (cv m1 (cn m))), O.
+      split. { exists m1. split; [exact A1|now apply steps_one]. }
+      split. { rewrite C2, D2. apply STON_global; [|rewrite C1, upd_same; exact Rv].
+               apply STON_ext with (f := upd (cv m) (cn m) (MClo fnc Uv)); [exact C1|]. rewrite D1.
+               apply STON_temp with (cnx := cn m); [apply STON_HL with (HL := HL); [exact HS|eapply HEXT_ext; eauto]|exact HnK|lia]. }
+      split. { exists []. rewrite app_nil_r. split; [reflexivity|intros k []]. }
+      split; [exact HX1|].
+      split. { intros j Hj Hn. rewrite C2, C1. apply upd_other. lia. }
+      split; [lia|].
+      exists CL, []. split; [reflexivity|]. split.
+      { replace (code_size pre + code_size [ci; IDefineGlobal x]) with (code_size pre + code_size [ci] + 3); [exact B2|]. cbn [code_size isize]. lia. }
+      pose proof (flags_up_length _ _ HFl) as HlenL1.
+      split. { apply LRBN_CL with (CL := (CL ++ [cn m])%list); [exact LR1|]. intros i Hi. symmetry. apply app_nth1. lia. }
+      split; [lia|]. split; [reflexivity|]. split; [exact HFLO|]. split; [now apply EXT2_flags|auto].
+    + (* a local holding the closure *)
+      cbn [orb] in Hfm. apply negb_true_iff in Hfm.
+      destruct (dup_in_scope L x d); [discriminate|]. destruct (List.length L =? c_locals_max cf); [discriminate|].
+      destruct (nfunc cf ps b (mkLocal (Some x) None false :: L) U E fs) as [[[[[ci L1] U1] E1] fs1]|] eqn:Ef0; [|discriminate].
+      destruct (nfunc_drop0 cf x ps b L U E fs ci L1 U1 E1 fs1 (forallb_stmt5_stmt5u _ _ _ Hfb) Hfm Ef0) as (L1' & -> & Ef).
+      cbn [l_capt] in Hc. inversion Hc; subst code L' U' E' fs'. clear Hc.
+      unfold new_cell in He. inversion He; subst st' en' ctl. clear He Hg.
+      assert (HLRp : LRBN K (CL ++ [cn m]) HL base L enb) by (apply LRBN_CL with (CL := CL); [exact HLRB|intros i Hi; apply app_nth1; lia]).
+      destruct (closure_here K CL HL base L enb U E fs ps b ci L1' U1 E1 fs1 Ufin Efin envs uvec m fn frs G O pre post lo
+                  Ef Hfb Hsok Hfuns HU HF (cx_envs _ _ _ _ _ _ _ _ _ _ HC) (cx_ur _ _ _ _ _ _ _ _ _ _ HC) (cx_cells _ _ _ _ _ _ _ _ _ _ HC) HLRp
+                  ltac:(rewrite app_length; lia) HM Hcode ltac:(apply FLO_snoc; [exact HFLO|lia]))
+        as (m1 & HL1 & fnc & Uv & A1 & B1 & C1 & D1 & HX1 & Hmem & Rv & LR1 & HFl).
+      pose proof (m2_s _ _ _ _ _ _ _ _ _ _ HM) as SK.
+      assert (Hnot : ~ In (cn m) HL1).
+      { intro Hin. destruct (Hmem _ Hin) as [H1|(s0 & Hs0 & Es0)].
+        - pose proof (s2_hl_lt _ _ _ SK _ H1). unfold cn in *. lia.
+        - rewrite app_nth1 in Es0 by lia. assert (Hin0 : In (cn m) CL) by (rewrite Es0; apply nth_In; lia).
+          pose proof (s2_cl_lt _ _ _ SK _ Hin0). unfold cn in *. lia. }
+      pose proof (flags_up_length _ _ HFl) as HlenL1.
+      pose proof (stn_len _ _ _ _ _ _ _ _ _ HS) as HlenK.
+      assert (HnK : ~ In (cn m) K) by (intro Hin; pose proof (sto_K_lt _ _ _ _ _ _ _ HS Hin); lia).
+      assert (HK1 : exists e, (K ++ [cn m])%list = (K ++ e)%list) by eauto.
+      assert (ST1 : sto st K HL1 (cv m1) (cn m1) G O).
+      { apply STON_ext with (f := upd (cv m) (cn m) (MClo fnc Uv)); [exact C1|]. rewrite D1.
+        apply STON_temp with (cnx := cn m); [apply STON_HL with (HL := HL); [exact HS|eapply HEXT_ext; eauto]|exact HnK|lia]. }
+      exists 1, m1, (K ++ [cn m])%list, HL1, G, O.
+      split; [now apply steps_one|].
+      split. { apply (STON_new cf funs st K HL1 (cv m1) (cn m1) G O (cn m) _ ST1 HnK ltac:(lia)). rewrite C1, upd_same.
+               apply (vrelN_mono cf funs K HL1 (K ++ [cn m])%list HL1 _ _ Rv HK1). exists []. now rewrite app_nil_r. }
+      split. { exists [cn m]. split; [reflexivity|]. intros k [<-|[]]. lia. }
+      split; [exact HX1|].
+      split. { intros j Hj Hn. rewrite C1. apply upd_other. lia. }
+      split; [lia|].
+      exists (CL ++ [cn m])%list, ((x, List.length (s_cells st)) :: enb). split; [reflexivity|]. split; [exact B1|].
+      split.
+      { constructor.
+        - apply LRBN_K with (K := K); [exact LR1|exact HK1].
+        - rewrite app_length. cbn. lia.
+        - rewrite HlenL1, <- HlenCL, nth_middle. unfold kc. rewrite <- HlenK, nth_middle. reflexivity.
+        - unfold kc. rewrite <- HlenK, nth_middle. intro Hin. contradiction. }
+      split; [rewrite app_length; cbn [List.length]; lia|]. split; [apply firstn_app_le; lia|].
+      split; [apply FLO_snoc; [exact HFLO|lia]|].
+      split. { exists [mkLocal (Some x) (Some d) false], [(x, List.length (s_cells st))], L1'. repeat split; auto.
+               constructor; [split; [reflexivity|discriminate]|constructor]. }
+      intro Hd00. subst d. discriminate.
+  - (* SReturn *)
+    apply andb_prop in Hf as [Hfi Hf]. subst infun.
+    destruct frs as [|[fn0 ups0 pc0 base0] frs']; [exfalso; now apply (Hfrs eq_refl)|].
+    cbn [exec_stmt] in He. destruct (eval_expr fu e (enb ++ List.concat envs)%list st) as [st1 rr] eqn:Ee.
+    destruct rr as [v| | |]; try (inversion He; subst; destruct Hg as [Hg|[? Hg]]; discriminate).
+    inversion He; subst st' en' ctl. clear He Hg.
+    cbn [nstmt] in Hc. destruct (nexpr cf L e U E) as [[[ce U1] E1]|] eqn:Ec; [|discriminate].
+    inversion Hc; subst code L' U' E' fs'. clear Hc.
+    destruct (IHE e enb envs st st1 v Ee Hf L U E ce U1 E1 Ec Ufin Efin uvec K CL HL base HU HF HC m fn (mkFrame fn0 ups0 pc0 base0 :: frs') G O pre ([IReturn] ++ post)%list)
+      as (n1 & m1 & K1 & HL1 & c1 & G1 & O1 & S1 & M1 & ST1 & KX1 & HX1 & R1 & B1 & N1 & NH1 & F1).
+    { rewrite Hcode. now rewrite <- !app_assoc. }
+    { exact HM. }
+    { exact HS. }
+    assert (Hfe : fetch (code_of funs fn) (code_size pre + code_size ce) = Some IReturn).
+    { eapply fetch_mid with (c2 := []) (post := post). exact Hcode. }
+    destruct (step2_return cf funs _ _ _ _ _ _ _ _ _ _ _ _ _ _ _ M1 Hfe ltac:(lia) NH1) as (m2 & A2 & B2 & C2 & D2).
+    destruct (sto_push _ _ _ _ _ _ _ _ ST1 C2 D2) as (S21 & S22 & S23).
+    exists (n1 + 1), m2, K1, HL1, G1, O1.
+    split. { apply (steps_trans cf funs n1 1 m m1 m2 S1). now apply steps_one. }
+    split; [exact S21|].
+    split. { apply (KEXT_widen K K1 (cn m) (cn m1)); auto; lia. }
+    split; [eapply HEXT_widen; eauto|].
+    split. { intros j Hj Hn. rewrite C2, upd_other by lia. apply F1; auto. }
+    split; [lia|].
+    exists fn0, ups0, pc0, base0, frs', (cn m1). split; [reflexivity|]. split; [exact B2|]. split; [rewrite C2, upd_same; exact R1|]. split; [lia|].
+    split; [exact S22|]. apply (notin_HL_fresh _ _ _ _ _ _ _ _ _ _ (cn m1) M1). lia.
+Qed.
+
+
+Lemma L_step : forall fu, S_goal fu -> L_goal fu -> L_goal (S fu).
+Proof.
+  intros fu IHS IHL ss infun top enb envs st st' en' ctl He Hg Hf L d U E fs code L' U' E' fs' Hc Ht Hdl Hd0 Hsok Hfuns
+         Ufin Efin uvec K CL HL base HU HF HC HlenCL m fn frs G O pre post lo Hcode Hfrs Hlo HFLO HM HS.
+  unfold RES. destruct ss as [|s r].
+  - cbn in He, Hc. inversion He; inversion Hc; subst. exists 0, m, K, HL, G, O.
+    split; [reflexivity|]. split; [exact HS|]. split; [apply KEXT_refl|]. split; [apply HEXT_refl|]. split; [apply FRAMEC_refl|]. split; [lia|].
+    exists CL, enb. split; [reflexivity|]. cbn [code_size]. rewrite Nat.add_0_r. split; [exact HM|].
+    split; [apply (cx_lrb _ _ _ _ _ _ _ _ _ _ HC)|]. split; [exact HlenCL|]. split; [reflexivity|]. split; [exact HFLO|].
+    split; [apply EXT2_flags, flags_up_refl|auto].
+  - cbn in Hf. apply andb_prop in Hf as [Hf1 Hf2]. cbn [exec_list] in He. cbn [nlist] in Hc.
+    destruct (nstmt cf s L d U E fs) as [[[[[ca L1] U1] E1] fs1]|] eqn:C1; [|discriminate].
+    destruct (nlist cf r d L1 U1 E1 fs1) as [[[[[cr L2] U2] E2] fs2]|] eqn:C2; [|discriminate]. inversion Hc; subst code L' U' E' fs'. clear Hc.
+    destruct (nstmt_ok cf s (stmt5_stmt5u _ _ _ Hf1) _ _ _ _ _ _ _ _ _ _ C1 Hdl) as (_ & _ & HLx1).
+    pose proof (lext_depth_le _ _ _ Hdl HLx1) as Hdl1.
+    destruct (nlist_ok cf r (forallb_stmt5_stmt5u _ _ _ Hf2) _ _ _ _ _ _ _ _ _ _ C2 Hdl1) as ([[ext2 ->] HF2] & [fe2 ->] & _).
+    pose proof (nstmt_stack_ok cf s (stmt5_stmt5u _ _ _ Hf1) _ _ _ _ _ _ _ _ _ _ C1 Hsok) as Hsok1.
+    destruct (exec_stmt fu s (enb ++ List.concat envs)%list top st) as [[st1 en1] c1] eqn:E1'.
+    assert (Hg1 : good c1).
+    { destruct c1; try (left; reflexivity); try (right; eexists; reflexivity); inversion He; subst; exact Hg. }
+    destruct HU as [ext ->].
+    assert (Hfuns1 : exists e0, funs = (fs1 ++ e0)%list).
+    { destruct Hfuns as [e0 ->]. exists (fe2 ++ e0)%list. now rewrite <- app_assoc. }
+    destruct (IHS s infun top enb envs st st1 en1 c1 E1' Hg1 Hf1 L d U E fs ca L1 U1 E1 fs1 C1 Ht Hdl Hd0 Hsok Hfuns1
+                ((U1 ++ ext2) ++ ext)%list Efin uvec K CL HL base ltac:(exists (ext2 ++ ext)%list; now rewrite app_assoc)
+                ltac:(eapply levs_up_trans; eauto) HC HlenCL m fn frs G O pre (cr ++ post)%list lo)
+      as (n1 & m1 & K1 & HL1 & G1 & O1 & S1 & ST1 & KX1 & HX1 & F1 & Hcn1 & Hres1); auto.
+    { rewrite Hcode. now rewrite <- !app_assoc. }
+    destruct c1 as [| | |w| | |]; try contradiction.
+    + destruct Hres1 as (CL1 & enb1 & -> & M1 & LR1 & Len1 & Hfirst1 & HFLO1 & X1 & Y1).
+      assert (HC1 : CTX K1 CL1 HL1 base L1 enb1 Efin envs ((U1 ++ ext2) ++ ext)%list uvec).
+      { eapply CTX_next; eauto; [eapply KEXT_ext; eauto|eapply HEXT_ext; eauto]. }
+      assert (Hd01 : d = 0 -> enb1 = [] /\ envs = []).
+      { intro Hd00. destruct (Hd0 Hd00) as [A B]. rewrite (Y1 Hd00). auto. }
+      destruct (IHL r infun top enb1 envs st1 st' en' ctl He Hg Hf2 L1 d U1 E1 fs1 cr L2 (U1 ++ ext2)%list E2 (fs1 ++ fe2)%list C2 Ht
+                  (EXT2_depth_le _ _ _ _ _ Hdl X1) Hd01 Hsok1 Hfuns ((U1 ++ ext2) ++ ext)%list Efin uvec K1 CL1 HL1 base
+                  ltac:(eauto) HF HC1 Len1 m1 fn frs G1 O1 (pre ++ ca)%list post lo)
+        as (n2 & m2 & K2 & HL2 & G2 & O2 & S2 & ST2 & KX2 & HX2 & F2 & Hcn2 & Hres2); auto.
+      { rewrite Hcode. now rewrite <- !app_assoc. }
+      { lia. }
+      { rewrite code_size_app. exact M1. }
+      exists (n1 + n2), m2, K2, HL2, G2, O2.
+      split; [eapply steps_trans; eauto|]. split; [exact ST2|].
+      split. { apply (KEXT_trans K K1 K2 (cn m) (cn m1) (cn m2)); auto. }
+      split. { eapply HEXT_trans; eauto. }
+      split. { eapply FRAMEC_trans with (m2 := m1) (K2 := K1); eauto. intros j Hin. eapply KEXT_in; eauto. }
+      split; [lia|].
+      pose proof (EXT2_len _ _ _ _ _ X1) as HlenL1.
+      assert (Hfb : firstn base CL1 = firstn base CL).
+      { rewrite <- (firstn_firstn_le _ CL1 base (base + List.length L)) by lia. rewrite Hfirst1. apply firstn_firstn_le. lia. }
+      destruct ctl; try contradiction.
+      * destruct Hres2 as (CL2 & enb2 & -> & M2 & LR2 & Len2 & Hfirst2 & HFLO2 & X2 & Y2).
+        exists CL2, enb2. split; [reflexivity|]. split; [rewrite !code_size_app in *; rewrite Nat.add_assoc; exact M2|].
+        split; [exact LR2|]. split; [exact Len2|].
+        split. { rewrite <- (firstn_firstn_le _ CL2 (base + List.length L) (base + List.length L1)) by lia. rewrite Hfirst2.
+                 rewrite firstn_firstn_le by lia. exact Hfirst1. }
+        split; [exact HFLO2|]. split; [eapply EXT2_trans; eauto|].
+        intro Hd00. rewrite (Y2 Hd00). auto.
+      * destruct Hres2 as (fn0 & ups0 & pc0 & base0 & frs' & cres & Efr & Q1 & Q2 & Q3 & Q4 & Q5).
+        exists fn0, ups0, pc0, base0, frs', cres. rewrite <- Hfb. split; [exact Efr|]. split; [exact Q1|]. split; [exact Q2|]. split; [lia|].
+        split; assumption.
+    + inversion He; subst st' en' ctl.
+      exists n1, m1, K1, HL1, G1, O1. split; [exact S1|]. split; [exact ST1|]. split; [exact KX1|]. split; [exact HX1|]. split; [exact F1|].
+      split; [lia|exact Hres1].
+Qed.
+
+Definition ALL_goals (fu : nat) : Prop := E_goal fu /\ S_goal fu /\ L_goal fu.
+
+Lemma not_good_stuck : forall w, ~ good (CStuck w).
+Proof. intros w [H|[v H]]; discriminate. Qed.
+
+Theorem simN_all : forall fu, ALL_goals fu.
+Proof.
+  induction fu as [|fu (IE & IS & IL)].
+  - split; [|split].
+    + unfold E_goal. intros ? ? ? ? ? ? He; discriminate.
+    + unfold S_goal. intros ? ? ? ? ? ? ? ? ? He Hg. cbn in He. inversion He; subst. destruct (not_good_stuck _ Hg).
+    + unfold L_goal. intros ? ? ? ? ? ? ? ? ? He Hg. cbn in He. inversion He; subst. destruct (not_good_stuck _ Hg).
+  - split; [|split].
+    + now apply E_step.
+    + now apply S_step.
+    + now apply L_step.
+Qed.
 
 End SimN.
+
+Print Assumptions simN_all.
